@@ -1,9 +1,9 @@
 (* SubDistP.v — C14 "each leaf reaches root at its original distance": in the sub-ontology every leaf
    has a chain of parent links to the root whose length is the length of the shortest such chain in
    the source, and no chain of the sub-ontology is shorter (its links are links of the source). *)
-From Coq Require Import Lia.
+From Coq Require Import Lia Relations.
 From HpoV Require Import Gen.Consts Model.Base Model.Group Model.Onto Model.Query Model.SubOnt
-  Proofs.GroupP Proofs.BaseP Proofs.ClosureP Proofs.DistP Proofs.QgoodP Proofs.SubP Proofs.SubLinksP.
+  Proofs.GroupP Proofs.BaseP Proofs.ClosureP Proofs.AcyclicP Proofs.DistP Proofs.DistTermP Proofs.TotalDistP Proofs.QgoodP Proofs.SubP Proofs.SubLinksP.
 
 Lemma sub_ids_leaf_path o root : forall leaves acc ids l, foldM (leaf_step o root) leaves acc = Ok ids -> In l leaves ->
   exists lt path, ar_get_unchecked l (o_arena o) = Ok lt /\ path_anc (q_fuel o) o lt root = Ok (Some path).
@@ -106,4 +106,19 @@ Proof.
   intros Hm H. unfold sub_ontology in *.
   destruct (sub_ids o root leaves) as [ids| | |] eqn:E; cbn [bind] in H; try discriminate.
   rewrite (sub_ids_same_members o root leaves leaves' ids Hm E). cbn [bind]. exact H.
+Qed.
+
+(* ---------------- the retained set is computed whenever every leaf is the root or below it ---------------- *)
+
+Theorem sub_ids_accepts o root leaves : qgood o -> acyclic (o_arena o) ->
+  (forall l, In l leaves -> In l (ar_keys (o_arena o))) ->
+  (forall l, In l leaves -> l = t_id root \/ anc (o_arena o) l (t_id root)) ->
+  exists ids, sub_ids o root leaves = Ok ids.
+Proof.
+  intros G Ac Hk Hr. rewrite sub_ids_unfold. apply leaf_steps_succeed. intros l Hl.
+  destruct (get_unchecked_key (o_arena o) l (q_wf o G) (Hk l Hl)) as [lt [Hg [Hlt Hid]]].
+  exists lt. destruct (TotalDistP.path_to_ancestor_returns o G Ac lt root Hlt) as [r Er].
+  assert (exists n, chain (o_arena o) (t_id lt) n (t_id root)) as [n Hc].
+  { rewrite Hid. destruct (Hr l Hl) as [->|Ha]; [exists 0%nat; constructor|apply (TotalDistP.anc_to_chain o _ _ Ha)]. }
+  destruct (path_anc_minimal o G (q_fuel o) lt root r Hlt Er n Hc) as [path [-> _]]. exists path. auto.
 Qed.
